@@ -67,6 +67,41 @@ def _intersect_2d(ctx, conic, line):
         ctx.require(f"intersect:point[{k}]-on-line", ctx.is_zero(R.dot(le, pe)))
         ctx.require(f"intersect:point[{k}]-on-conic", ctx.is_zero(_quad(A, pe)))
         ctx.hunt(f"intersect:point[{k}]-nonzero", R.nonzero(ctx, pe))
+    if conic is not None and line is None:
+        # completeness: a line that is not tangent meets a non-degenerate conic in two different (possibly complex) points
+        t = _quad(R.adjugate(A), le)
+        two = len(pts) == 2 and ctx.neg(R.proportional(ctx, E(pts[0]), E(pts[1])))
+        ctx.require("intersect:two-distinct-points-unless-tangent", ctx.implies(ctx.neg(ctx.is_zero(t)), two))
+
+
+PAIRS = [([1, 0, 0], [0, 1, 0]), ([1, 1, -1], [1, -1, 2]), ([0, 1, -2], [0, 1, 3])]
+
+
+def mk_linepair_x_free_line(k):
+    """degenerate conic g h^T + h g^T (two distinct lattice lines) x free line l: the result is exactly {g x l, h x l}"""
+    def case(ctx):
+        from geometer import Line, Conic
+        g, h = PAIRS[k]
+        A = [[g[i] * h[j] + h[i] * g[j] for j in range(3)] for i in range(3)]
+        C = Conic(ctx.const(A, float))
+        l = vec(ctx, "l", 3)
+        le = E(l)
+        ctx.assume(R.nonzero(ctx, le))
+        # l is neither of the two lines (then every point of l is common) and does not pass through their common point (then the two meets coincide)
+        ctx.assume(ctx.neg(R.proportional(ctx, le, g)))
+        ctx.assume(ctx.neg(R.proportional(ctx, le, h)))
+        x, y = R.cross3(g, le), R.cross3(h, le)
+        ctx.assume(ctx.neg(R.proportional(ctx, x, y)))
+        pts = C.intersect(Line(l))
+        ctx.outcome(f"n={len(pts)}")
+        ctx.require("linepair:two-points", len(pts) == 2)
+        if len(pts) == 2:
+            a, b = E(pts[0]), E(pts[1])
+            direct = ctx.all([R.proportional(ctx, a, x), R.proportional(ctx, b, y)])
+            swapped = ctx.all([R.proportional(ctx, a, y), R.proportional(ctx, b, x)])
+            ctx.require("linepair:returns-both-meets", ctx.any([direct, swapped]))
+            ctx.require("linepair:points-nonzero", ctx.all([R.nonzero(ctx, a), R.nonzero(ctx, b)]))
+    return case
 
 
 def case_secant_through_known_points(ctx):
@@ -279,6 +314,8 @@ def cases(tier, seed):
         add(f"intersect_conic{k}_x_free_line", mk_intersect_2d(conic=k), tiers=Q if k in (1, 2) else ("attempt",), max_paths=3000)
     for k in range(len(LINES)):
         add(f"intersect_free_conic_x_line{k}", mk_intersect_2d(line=k), tiers=T if k else Q, max_paths=6000)
+    for k in range(len(PAIRS)):
+        add(f"linepair{k}_x_free_line", mk_linepair_x_free_line(k), tiers=Q, max_paths=3000)
     add("intersect_2d", mk_intersect_2d(), tiers=("attempt",), max_paths=20000)
     add("secant_known_points", case_secant_through_known_points, tiers=("attempt",), max_paths=3000)
     add("tangent_polar", case_tangent_polar, tiers=("attempt",), max_paths=3000)
